@@ -6,7 +6,10 @@
 (* then events                                                                  *)
 (*   {"ev":"reset","now":t}               fresh plugin state, clock set to t    *)
 (*   {"ev":"adv","d":d}                   clock advanced by d ticks             *)
+(*   {"ev":"setw","r":..,"w":w}           window length of remedy r reconfigured *)
 (*   {"ev":"req","r":..,"g":..,"out":..}  one request handled on its own        *)
+(*   {"ev":"batch","r":..,"g":..,"n":n,"passes":p}  n overlapping requests for  *)
+(*        one key at one instant, p of them passed (compact form of begin/end)  *)
 (*   {"ev":"begin","id":i,"r":..,"g":..,"out":..} / {"ev":"end","id":i}         *)
 (*        a request handled concurrently with others: invocation / return;      *)
 (*        its linearization point is placed by TLC anywhere in between (Lin).   *)
@@ -16,17 +19,18 @@ Cfg == TraceLog[1]
 Remedy == DOMAIN Cfg.W
 Group == Cfg.groups
 GroupSet == {Group[i] : i \in 1..Len(Group)}
-W == Cfg.W
+W0 == Cfg.W
+WChoices == {2, 4, 6, 8, 10, 12, 14, 22}
 Allowed == Cfg.Allowed
 Pct == Cfg.Pct
 DefBehav == Cfg.DefBehav
 DefPct == Cfg.DefPct
 
-VARIABLES now, win, cnt, last, l, pend, done
+VARIABLES now, W, olds, curs, last, l, pend, done
 
 P == INSTANCE ThrottleP WITH Group <- GroupSet, MaxNow <- 1000000000, Steps <- {}
 
-tvars == <<now, win, cnt, last, l, pend, done>>
+tvars == <<now, W, olds, curs, last, l, pend, done>>
 
 Ev == TraceLog[l + 1]
 Consume(name) == l < TraceLen /\ Ev.ev = name /\ l' = l + 1
@@ -36,19 +40,24 @@ TInit == P!Init /\ l = 1 /\ pend = {} /\ done = {}
 TReset ==
     /\ Consume("reset") /\ pend = {} /\ done = {}
     /\ now' = Ev.now
-    /\ win' = [r \in Remedy |-> [g \in GroupSet |-> -1]]
-    /\ cnt' = [r \in Remedy |-> [g \in GroupSet |-> 0]]
+    /\ W' = W0
+    /\ olds' = [r \in Remedy |-> [g \in GroupSet |-> <<>>]]
+    /\ curs' = [r \in Remedy |-> [g \in GroupSet |-> <<>>]]
     /\ last' = [ev |-> "reset"]
     /\ UNCHANGED <<pend, done>>
 
 TAdv == Consume("adv") /\ P!Advance(Ev.d) /\ UNCHANGED <<pend, done>>
 
+TSetW == Consume("setw") /\ P!SetW(Ev.r, Ev.w) /\ UNCHANGED <<pend, done>>
+
 TReq == Consume("req") /\ P!Request(Ev.r, Ev.g, Ev.out) /\ UNCHANGED <<pend, done>>
+
+TBatch == Consume("batch") /\ P!Batch(Ev.r, Ev.g, Ev.n, Ev.passes) /\ UNCHANGED <<pend, done>>
 
 TBegin ==
     /\ Consume("begin")
     /\ pend' = pend \cup {[id |-> Ev.id, r |-> Ev.r, g |-> Ev.g, out |-> Ev.out]}
-    /\ UNCHANGED <<now, win, cnt, last, done>>
+    /\ UNCHANGED <<now, W, olds, curs, last, done>>
 
 TLin == \E p \in pend :
     /\ P!Request(p.r, p.g, p.out)
@@ -59,9 +68,9 @@ TLin == \E p \in pend :
 TEnd ==
     /\ Consume("end") /\ Ev.id \in done
     /\ done' = done \ {Ev.id}
-    /\ UNCHANGED <<now, win, cnt, last, pend>>
+    /\ UNCHANGED <<now, W, olds, curs, last, pend>>
 
-TNext == TReset \/ TAdv \/ TReq \/ TBegin \/ TLin \/ TEnd
+TNext == TReset \/ TAdv \/ TSetW \/ TReq \/ TBatch \/ TBegin \/ TLin \/ TEnd
 
 TraceSpec == TInit /\ [][TNext]_tvars
 
